@@ -258,6 +258,11 @@ func c05Slots2(c *Ctx, k *core, rule string) {
 		c.check(f == k.config || (isStoreFn && isUpd), rule, relName(f)+"#slot-write", st.Pos(),
 			"slot written by Config's fill / replaced by the reported value", "a slot value is written elsewhere or with something other than the reported value")
 	}
+	for _, st := range w.wholeStoresOfNamed("sourceValue") {
+		f := origin(st.Parent())
+		c.check(f == k.config, rule, relName(f)+"#slot-overwrite", st.Pos(), "whole slot written by Config's initial fill",
+			"a whole source slot is overwritten outside Config's initial fill: the layer's stored value is lost (the next re-stack no longer contains what that source set)")
+	}
 	// nobody Sets through a slot value
 	for _, f := range w.funcsIn("") {
 		for _, i := range allInstrs(f) {
